@@ -507,6 +507,7 @@ class trim_line:
     ensures = staticmethod(_trim_ens)
     ensures_callee = staticmethod(lambda a, result: _trim_ens(a, result, True))
     loops = {0: Loop(invariant=_trim_inv, shapes={"result": LINE})}
+    qf_branching = True   # solver strategy only
 
     def requires(a):
         # (lines holding inserted-text segments are not covered: see LayoutSegment.subseg)
@@ -918,6 +919,14 @@ def _cp_ens(a, result, callee=False):
             implies(neg(_isnone_f(up)), result == val(up)),
             implies(both(_isnone_f(up), neg(_isnone_f(down))), result == val(down))))
 
+    if not callee:
+        # instances (tautologies) of the quantified premises at the distance the search had reached at the exit
+        loc = cur().ghost.get("exit_locals", {})
+        if "rows_above" in loc:
+            D = row - Q.seq_len(loc["rows_above"])
+            both_none = lambda q: both(_row_none(layout, t, pref, row - q), _row_none(layout, t, pref, row + q))  # noqa: E731
+            for hi in (m + 1, V.arbitrary("d")):
+                cur().assume(implies(both(none_upto(hi), 1 <= D, D < hi), both_none(D)))
     if callee:
         yield "else-position-of-the-nearest-row-that-has-one-above-before-below", forall(1, m + 1, nearest, check_empty=False)
     else:
